@@ -301,10 +301,34 @@ def op_one(task):
     return {"tokens": r["tokens"], "errors": [e["name"] for e in r["errors"]], "exc": r["exc"], "violations": []}
 
 
+def op_patterns(task):
+    """the compiled numeric-literal patterns and suffix tables of the real lexer module"""
+    from norminette.lexer import lexer as L
+    out = {"patterns": {}, "integer_suffixes": list(L.integer_suffixes), "float_suffixes": list(L.float_suffixes)}
+    for name in ("INT_LITERAL_PATTERN", "FLOAT_EXPONENT_LITERAL_PATTERN", "FLOAT_FRACTIONAL_LITERAL_PATTERN",
+                 "FLOAT_HEXADECIMAL_LITERAL_PATTERN"):
+        p = getattr(L, name, None)
+        if p is not None:
+            out["patterns"][name] = {"pattern": p.pattern, "flags": p.flags}
+    return out
+
+
+def op_rematch(task):
+    """what the real compiled pattern answers on concrete strings (translation validation and
+    replay of counter-models): [end, groupdict] or None"""
+    from norminette.lexer import lexer as L
+    p = getattr(L, task["pattern"])
+    out = []
+    for w in task["words"]:
+        m = p.match(w)
+        out.append(None if m is None else [m.end(), m.groupdict()])
+    return {"results": out}
+
+
 def main():
     task = json.load(sys.stdin)
-    json.dump({"operators": op_operators, "programs": op_programs, "literals": op_literals, "one": op_one}[task["op"]](task),
-              sys.stdout)
+    json.dump({"operators": op_operators, "programs": op_programs, "literals": op_literals, "one": op_one,
+               "patterns": op_patterns, "rematch": op_rematch}[task["op"]](task), sys.stdout)
 
 
 if __name__ == "__main__":
